@@ -52,6 +52,8 @@ def pool():
 def canon_M(q, r):
     if q[0] == "stoich":
         return C.canon_stoich_model(r)
+    if q[0] == "tc":
+        return C.canon_tc_model(r)
     r = C.canon_model_res(r)
     if "ok" in r and q[0] == "pvals":
         return {"ok": sorted(r["ok"])}
@@ -86,4 +88,6 @@ def standard_queries(rng, content, n_states=2):
         st = C.gen_state(rng, content)
         t = str(rng.choice([0, 1, 2, "1/2"]))
         qs += [["args", st, t], ["fluxes", st, t], ["rhs", st, t], ["call", t, [v for _, v in st]], ["stoich", st, t]]
+    times = rng.sample(["0", "1/2", "1", "2", "3"], rng.randint(1, 3))
+    qs.append(["tc", [[t, C.gen_state(rng, content)] for t in sorted(times, key=lambda x: eval(x))]])
     return qs
